@@ -11,6 +11,7 @@ import Ymq.Model.Kronecker
 import Ymq.Model.Crt
 import Ymq.Model.PolyMul
 import Ymq.Model.PolySeries
+import Ymq.Model.PolyTree
 
 namespace Ymq.Drv
 open Ymq.PolySpec
@@ -144,9 +145,9 @@ def handlePolyFft : Handler
     let (k, r, ri) ← mont n
     some (showOptArr ((Ymq.Kronecker.convolveModn true (Ymq.Kronecker.cycExact nn) n k ri nn
       size logpack stride (toMont n r p) (toMont n r q) reslen offset).map (ofMont n ri)))
-  | ["pf_from_roots", n, _ringsize, roots] => do
-    let n ← parseNat n; let roots ← parsePoly n roots
-    some (showArr (fromRoots n roots))
+  | ["pf_from_roots", n, ringsize, roots] => do
+    let n ← parseNat n; let ringsize ← parseNat ringsize; let roots ← parsePoly n roots
+    some (showOptList (Ymq.PolyMul.fromRoots (Ymq.PolyMul.Ctx.new ringsize) (Ymq.PolyMul.natOps n) roots.toList))
   | ["pf_roots_eval", n, a, b] => do
     let n ← parseNat n; let a ← parsePoly n a; let b ← parsePoly n b
     some (showArr (rootsEval n a b))
